@@ -4021,6 +4021,35 @@ fn main() {
             println!("stale={}", stale);
             println!("errors={}", errors);
         }
+        // binary_range_compaction : a manual compaction whose bounds are not valid UTF-8 (keys 0xff 0xfe .. 0xff 0xff stored too), under a
+        // 20 s watchdog; afterwards a put and a flush must still complete (the background thread is alive)
+        "binary_range_compaction" => {
+            use raindb::WriteOptions;
+            let mut o = raindb::DbOptions::with_memory_env();
+            o.db_path = "db".to_string();
+            o.create_if_missing = true;
+            let db = std::sync::Arc::new(raindb::DB::open(o).expect("open"));
+            for round in 0..2u8 {
+                for k in [vec![b'a'], vec![0xff, 0xfe], vec![0xff, 0xff]] { db.put(WriteOptions::default(), k, vec![b'0' + round]).unwrap(); }
+                let _ = db.flush_for_verif();
+            }
+            let (tx, rx) = std::sync::mpsc::channel();
+            let db2 = std::sync::Arc::clone(&db);
+            std::thread::spawn(move || {
+                db2.compact_range(Some(&[0xff, 0xfe][..])..Some(&[0xff, 0xff][..]));
+                let _ = tx.send(());
+            });
+            let returned = rx.recv_timeout(std::time::Duration::from_secs(20)).is_ok();
+            println!("compact_range={}", if returned { "returned" } else { "stuck" });
+            let (tx2, rx2) = std::sync::mpsc::channel();
+            let db3 = std::sync::Arc::clone(&db);
+            std::thread::spawn(move || {
+                let ok = db3.put(WriteOptions::default(), b"later".to_vec(), b"x".to_vec()).is_ok() && db3.flush_for_verif();
+                let _ = tx2.send(ok);
+            });
+            println!("later_flush={}", match rx2.recv_timeout(std::time::Duration::from_secs(20)) { Ok(true) => "ok", Ok(false) => "failed", Err(_) => "stuck" });
+            std::process::exit(0);
+        }
         // manifest_codec : edits of trivial moves (file n deleted at level L, added at level L + 1) and a mixed edit are encoded
         // and decoded by the real codec
         "manifest_codec" => {
